@@ -12,7 +12,7 @@ import z3
 from pyvc import contract as C
 from pyvc.contract import Contract, register, schema
 from pyvc.npmodel import TArr
-from pyvc.values import BuiltinV, T, TBool, TFun, TInt, TList, TNone, TObj, TReal
+from pyvc.values import BuiltinV, T, TBool, TFun, TInt, TList, TNone, TObj, TReal  # noqa: F401
 
 OPS = "gemseo.core.mdo_functions._operations."
 MAKER, ADD, MUL = OPS + "_OperationFunctionMaker", OPS + "_AdditionFunctionMaker", OPS + "_MultiplicationFunctionMaker"
@@ -146,6 +146,11 @@ class _Op(Contract):
             out.append(("vector-operand-has-the-output-dimension", ln(c.old.self._second_operand) == f.m))
         return out
 
+    def tagged(self, clauses):
+        """Clause labels carry the typed variant (reports group obligations by function and label)."""
+        tag = f"{self.op},{'vector' if self.first_vec else 'number'}-f,{self.second}"
+        return [(f"{lab}[{tag}]", f) for lab, f in clauses]
+
     def operands_unchanged(self, c):
         out = []
         for k, (fname, ref, shape, elems) in enumerate(c.st.ghost.get("funv_arrays", [])):
@@ -177,8 +182,6 @@ def vname(op, first_vec, second, second_vec):
 
 # ---------------------------------------------------------------------------- value of the operation
 for _op, _fop, _fv, _sec, _sv in VARIANTS:
-    _cls = MAKER if True else None
-
     class ComputeOperation(_Op):
         """(f op g)(x)_i = f(x)_i op g(x)_i (g a function, a number or a vector of the output dimension)."""
 
@@ -193,10 +196,10 @@ for _op, _fop, _fv, _sec, _sv in VARIANTS:
             r = c.result
             i = z3.Int("i!co")
             if not self.first_vec:
-                return [("value", r == self.fop(f.value(0), second_value(c, self.second, g, 0)))] + self.operands_unchanged(c)
-            return [("size", ln(r) == f.m),
-                    ("components", z3.ForAll([i], z3.Implies(z3.And(0 <= i, i < f.m), el(r, i) == self.fop(f.value(i), second_value(c, self.second, g, i)))))] \
-                + self.operands_unchanged(c)
+                return self.tagged([("value", r == self.fop(f.value(0), second_value(c, self.second, g, 0)))] + self.operands_unchanged(c))
+            return self.tagged([("size", ln(r) == f.m),
+                                ("components", z3.ForAll([i], z3.Implies(z3.And(0 <= i, i < f.m), el(r, i) == self.fop(f.value(i), second_value(c, self.second, g, i)))))]
+                               + self.operands_unchanged(c))
 
     register(ComputeOperation)
 
@@ -229,7 +232,7 @@ for _op, _fop, _fv, _sec, _sv in VARIANTS:
         def ensures(self, c):
             x, f, g = self.operands(c)
             entry = (lambda i, j: self.fop(f.jac(i, j), g.jac(i, j))) if g is not None else (lambda i, j: f.jac(i, j))
-            return jac_clauses(self, c, f, entry) + self.operands_unchanged(c)
+            return self.tagged(jac_clauses(self, c, f, entry) + self.operands_unchanged(c))
 
     register(AdditionJacobian)
 
@@ -251,7 +254,7 @@ for _op, _fop, _fv, _sec, _sv in VARIANTS:
 
         def finding_regions(self, c):
             x, f, g = self.operands(c)
-            return {"output dimension > 1": f.m > 1}
+            return {"output-dimension-greater-than-1": f.m > 1}
 
         def ensures(self, c):
             x, f, g = self.operands(c)
@@ -261,7 +264,7 @@ for _op, _fop, _fv, _sec, _sv in VARIANTS:
                 entry = lambda i, j: f.jac(i, j) * g.value(i) + g.jac(i, j) * f.value(i)  # noqa: E731
             else:
                 entry = lambda i, j: (f.jac(i, j) * g.value(i) - g.jac(i, j) * f.value(i)) / (g.value(i) * g.value(i))  # noqa: E731
-            return jac_clauses(self, c, f, entry) + self.operands_unchanged(c)
+            return self.tagged(jac_clauses(self, c, f, entry) + self.operands_unchanged(c))
 
     register(MultiplicationJacobian)
 
@@ -392,17 +395,6 @@ def dominates_instance(a, n, w):
 def psum_dominates(n):
     a, w = z3.Const("a!pd", RSEQ), z3.Int("w!pd")
     return z3.ForAll([a, w], dominates_instance(a, n, w))
-
-
-def bounded_instance(a, n, B):
-    """Instance of PrefixSumLemmas.bounded: a sum of n terms that are all <= B is <= n B."""
-    k = z3.Int("k!bi")
-    return z3.Implies(z3.And(n >= 0, z3.ForAll([k], z3.Implies(z3.And(0 <= k, k < n), a[k] <= B))), PSUM(a, n) <= z3.ToReal(n) * B)
-
-
-def psum_bounded(n):
-    a, B = z3.Const("a!pb", RSEQ), z3.Real("B!pb")
-    return z3.ForAll([a, B], bounded_instance(a, n, B))
 
 
 @register
@@ -896,3 +888,28 @@ class LinearJacobian(_Lin):
             return [("one-output", m == 1), ("size", ln(r) == n), ("entries", z3.ForAll([j], z3.Implies(z3.And(0 <= j, j < n), el(r, j) == el(A, 0, j))))]
         return [("several-outputs", m != 1), ("shape", z3.And(ln(r, 0) == m, ln(r, 1) == n)),
                 ("entries", z3.ForAll([i, j], z3.Implies(z3.And(0 <= i, i < m, 0 <= j, j < n), el(r, i, j) == el(A, i, j))))]
+
+
+# ============================================================================ bound side of the upper KS function
+@register
+class KSUpperBoundLemma(Contract):
+    """KS_upper(v) >= max_k s v_{I_k}: a consequence of the postconditions of compute_upper_bound_ks_agg (value formula, the shift M is the
+    maximum and is attained at a position w, so that e_w = exp(rho)), of `a sum of positive terms is at least each term` (PrefixSumLemmas.dominates)
+    and of two textbook facts on the uninterpreted exp / log, assumed here: log(exp(t)) = t and log is non-decreasing on the positive reals."""
+
+    targets = ()
+    prop = ("C10",)
+    lemma = True
+
+    def lemmas(self):
+        e = z3.Const("e!ks", RSEQ)
+        cnt, w, k = z3.Int("cnt!ks"), z3.Int("w!ks"), z3.Int("k!ks")
+        M, rho, KS, x, y, t = z3.Reals("M!ks rho!ks KS!ks x!ks y!ks t!ks")
+        S = PSUM(e, cnt)
+        post = z3.And(rho > 0, 0 <= w, w < cnt,
+                      z3.ForAll([k], z3.Implies(z3.And(0 <= k, k < cnt), e[k] > 0)),  # exp is positive
+                      e[w] == np_exp(rho * (M + 1 - M)),  # the maximum is attained at w
+                      KS == M + (1 / rho) * np_log(S) - 1)  # post:value
+        explog = z3.And(z3.ForAll([t], np_log(np_exp(t)) == t, patterns=[np_exp(t)]),
+                        z3.ForAll([x, y], z3.Implies(z3.And(0 < x, x <= y), np_log(x) <= np_log(y)), patterns=[z3.MultiPattern(np_log(x), np_log(y))]))
+        return [("upper-KS-dominates-the-maximum", z3.Implies(z3.And(post, explog, dominates_instance(e, cnt, w)), KS >= M))]
